@@ -1041,3 +1041,5 @@ RULE += (' Added: FillRequest(run element, yield_on_remainder=True) also with bu
 RULE += (' Added: two runs of one pipeline object (stateless elements, no Split sharing its '
          'buffer) alive at the same time over two probes and consumed alternately: each yields '
          'what the lazy reference yields and has pulled no more than it.')
+
+RULE += (' Round 10: pipelines of up to 14 elements over flows of 17..300 values with block sizes, slice indices and branch counts in the tens; Splits with the default block size in flows of 1001..2300 values and endless ones.')
